@@ -26,7 +26,7 @@ REQUIRED_OBS = {"slices": 300, "pixels_decided": 20000, "class:boxface": 20, "cl
                 "class:gap+": 20, "class:domainface": 10, "class:centre": 20, "out_of_domain_refused": 10,
                 "default_position": 5, "parallel": 50, "reuse": 5, "cli_runs": 30}
 TIMEOUT = {"quick": 600, "thorough": 3000}
-NAMES = ["ax", "ay", "az", "tagx", "tagy", "tagz", "rnd"]
+NAMES = ["ax", "ay", "az", "tagx", "tagy", "tagz", "rnd", "near"]
 
 
 def cases(tier, seed):
@@ -138,7 +138,7 @@ def run_case(case, work, rec):
                     rec.skip("position within the snapping tolerance of a cell centre")
                     continue
                 fl = rng.choice([["all"], ["a" + "xyz"[n], "tag" + "xyz"[n], "rnd", "grid_level"],
-                                 ["rnd"], ["a" + "xyz"[n], "grid_level"], ["tagx", "ay"]])
+                                 ["rnd"], ["a" + "xyz"[n], "grid_level"], ["tagx", "ay"], ["near", "rnd"]])
                 serial = rng.random() < 0.5
                 key = (digest, n, pos, limit, serial, tuple(fl))
                 descr = f"normal={'xyz'[n]} pos={pos!r} ({cls}) limit_level={limit} serial={serial} fields={fl}"
